@@ -407,6 +407,7 @@ def fit_scipy(
     if check_grad:
         print("checking gradients ...")
         f_g = fcn.vm.trans_fcn_grad(fcn.nll_grad)
+        x_fit = [float(i) for i in xn]
         _, gs0 = f_g(xn)
         gs = []
         for i, name in enumerate(args_name):
@@ -417,6 +418,8 @@ def fit_scipy(
             xn[i] += 1e-5
             gs.append((nll0 - nll1) / 2e-5)
             print(args_name[i], gs[i], gs0[i])
+        # every evaluation above moved the parameters: go back to the fit result
+        fcn.vm.set_all(x_fit)
     if standard_complex:
         # the bounds were removed from the variable manager above (or never
         # installed): bounded radii/phases must not be moved out of their range
